@@ -101,7 +101,7 @@ def canon_impl(lines):
 
 
 def is_async(case):
-    return case.header.split()[0] in ("async", "free")
+    return case.header.split()[0] in ("async", "free", "lfree")
 
 
 def canon_for_compare(case, lines, impl):
@@ -301,7 +301,7 @@ def oracle_async(case, lines, casedir):
         acc += len(c)
         bounds_files.append(acc)
 
-    if kind == "free":
+    if kind in ("free", "lfree"):
         n = int(hdr_get(case.header, "n", "1000"))
         spec = hdr_get(case.header, "lens", "100")
         lens = []
@@ -595,6 +595,11 @@ def free_cases(rng, tier):
     for i, (T, lens, burst) in enumerate([(4, "@1:4000:%d" % rng.randint(1, 9999), 64), (2, "@1:200:%d" % rng.randint(1, 9999), 0),
                                           (8, "@10:4000:%d" % rng.randint(1, 9999), 16)][: 2 if tier == "quick" else 3]):
         cs.append(vlib.Case("free%d" % i, "free threads=%d n=%d lens=%s roll=%d burst=%d quiesce=1" % (T, n, lens, rng.choice([2000000, 7000000]), burst), [], "free-running"))
+    # several threads appending to ONE thread-safe LogFile (LogFile::append under its own mutex), rolling often
+    for i, (T, lens, roll, every) in enumerate([(4, "@1:300:%d" % rng.randint(1, 9999), 40000, 7), (3, "@10:4000:%d" % rng.randint(1, 9999), 300000, 1024),
+                                                (8, "@1:64:%d" % rng.randint(1, 9999), 9000, 1)][: 2 if tier == "quick" else 3]):
+        cs.append(vlib.Case("lfree%d" % i, "lfree threads=%d n=%d lens=%s roll=%d flush=3 every=%d burst=%d now=86395 quiesce=1"
+                            % (T, n // 2, lens, roll, every, rng.choice([0, 8, 64])), [], "free-running"))
     return cs
 
 
